@@ -2,9 +2,11 @@
 Every call runs in a worker process under a wall-clock limit (harness/lib/watchdog.py).  The Newton model of the refraction
 root finder is compared with the implementation through the returned direction for terminating cases."""
 import math
+import warnings
 import numpy as np
 from ..lib.core import f2b, b2f
 from ..lib.watchdog import Watchdog
+from ..lib.watchdog import time_limit, CallTimeout
 
 TRUSTED = ['wall-clock limit of 20 s per call stands for "does not return" (a hang is a timeout, reported as such)',
            'the table of while loops is regenerated from the source (harness/translate/loops.py)',
@@ -260,6 +262,62 @@ def run(ctx):
             ctx.violation('torch intersect_w_sphere: hit flags %s for tensors with provenance %r differ from the flags %s for plain tensors of the same values'
                           % (flags, prov, ref_flags), rec, {'fn': 'intersect_w_sphere', 'api': 'torch', 'what': 'provenance_flags', 'case': 'provenance'})
 
+    # ---------------- the public NumPy secant solver with the caller's OWN surface: the error function written with `math` / plain arithmetic returns a Python
+    # float (the documentation calls the error a float), with NumPy it returns a NumPy scalar or a 1-element array; stalled rays (zero direction, parallel to a
+    # plane) and misses must come back flagged - (False, False) or a non-finite distance - never an exception, for every way of writing the callback
+    from odak.raytracing.boundary import intersect_parametric as _ip
+
+    def _plane_fn(kind):
+        def f(point, surface):
+            p = np.asarray(point, dtype=np.float64).reshape(-1)
+            v = (p[0] - surface[0]) * surface[3] + (p[1] - surface[1]) * surface[4] + (p[2] - surface[2]) * surface[5]
+            return {'python float': float(v), 'numpy scalar': np.float64(v), 'numpy array': np.array([v])}[kind]
+        return f
+
+    def _parab_fn(kind):
+        def f(point, surface):
+            p = np.asarray(point, dtype=np.float64).reshape(-1)
+            v = p[2] - surface[0] * (p[0] * p[0] + p[1] * p[1]) - surface[1]
+            return {'python float': float(v), 'numpy scalar': np.float64(v), 'numpy array': np.array([v])}[kind]
+        return f
+
+    def _normal_fn(point, surface):
+        return np.array([np.asarray(point, dtype=np.float64).reshape(-1)[:3], [0., 0., 1.]])
+    cb_cases = [('plane', [0., 0., 5., 0., 0., 1.], 'hit', [[0.2, -0.1, 0.], [0., 0.6, 0.8]], True),
+                ('plane', [0., 0., 5., 0., 0., 1.], 'parallel', [[0., 0., 0.], [1., 0., 0.]], False),
+                ('plane', [0., 0., 5., 0., 0., 1.], 'zero_direction', [[0., 0., 0.], [0., 0., 0.]], False),
+                ('paraboloid', [0.1, 2.0], 'hit', [[0.3, 0.2, 0.], [0., 0., 1.]], True),
+                ('paraboloid', [0.1, 2.0], 'zero_direction', [[0.3, 0.2, 0.], [0., 0., 0.]], False),
+                ('paraboloid', [0.1, 2.0], 'miss', [[0.3, 0.2, 0.], [0., 0., -1.]], False)]
+    for surf_name, surf, name, ray, expect in cb_cases:
+        for kind in ('python float', 'numpy scalar', 'numpy array'):
+            fn = (_plane_fn if surf_name == 'plane' else _parab_fn)(kind)
+            rec = {'kind': 'parametric_callback', 'surface': surf_name, 'params': surf, 'name': name, 'ray': ray, 'callback_returns': kind}
+            ctx.case(('parametric_callback', surf_name, name, kind), True)
+            ctx.count('parametric_callback/returns ' + kind)
+            try:
+                with time_limit(30.0):
+                    with np.errstate(all='ignore'), warnings.catch_warnings():
+                        warnings.simplefilter('ignore')
+                        dist, nrm = _ip(np.array(ray, dtype=np.float64), np.array(surf, dtype=np.float64), fn, _normal_fn, iter_no_limit=2000)
+            except CallTimeout:
+                ctx.violation('intersect_parametric does not return within 30 s for a %s (%s) with a callback returning a %s' % (surf_name, name, kind), rec,
+                              {'fn': 'intersect_parametric', 'api': 'numpy', 'what': 'hang', 'case': 'callback'})
+                continue
+            except Exception as e:
+                ctx.violation('intersect_parametric raised %r from inside the solver for a %s, ray %s (%s), with a surface function returning a %s'
+                              % (e, surf_name, ray, name, kind), rec, {'fn': 'intersect_parametric', 'api': 'numpy', 'what': 'exception', 'case': 'callback'})
+                continue
+            flagged = dist is False or (isinstance(dist, (bool, np.bool_)) and not dist) or not np.all(np.isfinite(np.asarray(dist, dtype=np.float64)))
+            if expect is False and not flagged:
+                d = float(np.asarray(dist, dtype=np.float64).reshape(-1)[0])
+                pt = np.array(ray[0]) + d * np.array(ray[1])
+                if abs(float(np.asarray(fn(pt, surf)).reshape(-1)[0])) > 1e-3:
+                    ctx.violation('intersect_parametric reports distance %g for a %s ray (%s) whose point is not on the surface' % (d, name, surf_name), rec,
+                                  {'fn': 'intersect_parametric', 'api': 'numpy', 'what': 'unflagged', 'case': 'callback'})
+            if expect is True and flagged:
+                ctx.violation('intersect_parametric flags the ray %s as a miss although it meets the %s (callback returning a %s)' % (ray, surf_name, kind), rec,
+                              {'fn': 'intersect_parametric', 'api': 'numpy', 'what': 'missed_hit', 'case': 'callback'})
     # ---------------- NumPy secant solver (ray-sphere, ray-cylinder) with its iteration cap
     np_cases = [('sphere_np', 'hit', [[0, 0, 0], [0, 0, 1.0]], [0, 0, 10.0, 3.0], True),
                 ('sphere_np', 'miss', [[0, 0, 0], [1.0, 0, 0]], [0, 0, 10.0, 3.0], False),
